@@ -83,8 +83,8 @@ class WorldCheck(Check):
 
     def budget(self, tier):
         if tier == 'thorough':
-            return {'runs': 60000, 'time': 900.0, 'run_cap': 120.0, 'selftest': 100}
-        return {'runs': 2500, 'time': 55.0, 'run_cap': 120.0, 'selftest': 12}
+            return {'runs': 60000, 'time': 900.0, 'run_cap': 600.0, 'selftest': 100}
+        return {'runs': 2500, 'time': 55.0, 'run_cap': 300.0, 'selftest': 12}
 
     def world_knobs(self, rng):
         return dict(self.knobs)
@@ -1153,8 +1153,8 @@ class C31(WorldCheck):
 
     def budget(self, tier):
         if tier == 'thorough':
-            return {'runs': 30000, 'time': 1200.0, 'run_cap': 180.0, 'selftest': 100}
-        return {'runs': 1500, 'time': 55.0, 'run_cap': 180.0, 'selftest': 12}
+            return {'runs': 30000, 'time': 1200.0, 'run_cap': 600.0, 'selftest': 100}
+        return {'runs': 1500, 'time': 55.0, 'run_cap': 300.0, 'selftest': 12}
 
     rule = ("plans = two independent generated worlds with their own API-call histories (run_model, set_val, "
             "compute_totals, compute_jacvec_product, check_partials, check_totals incl. directional, total coloring, "
@@ -1723,8 +1723,8 @@ class C12(HistoryCheck):
 
     def budget(self, tier):
         if tier == 'thorough':
-            return {'runs': 40000, 'time': 900.0, 'run_cap': 120.0, 'selftest': 100}
-        return {'runs': 2000, 'time': 55.0, 'run_cap': 120.0, 'selftest': 12}
+            return {'runs': 40000, 'time': 900.0, 'run_cap': 600.0, 'selftest': 100}
+        return {'runs': 2000, 'time': 55.0, 'run_cap': 300.0, 'selftest': 12}
 
     def world_knobs(self, rng):
         k = dict(ALL_KNOBS)
@@ -1949,7 +1949,7 @@ class C12(HistoryCheck):
             pass
         return out
 
-    def check_partials_of_stubs(self, sim, viol):
+    def check_partials_of_stubs(self, sim, viol, base_current=True):
         """I-12-partials: after run_linearize, the sub-jacobians an approximating component holds equal the
         plan's exact partials at the component's current inputs, within the method's bound (judged at any
         state, converged or not -- a partial derivative does not care)."""
@@ -1966,6 +1966,12 @@ class C12(HistoryCheck):
             evals = sim.rt.counts.get((c['name'], meth), 0) - getattr(sim, '_counts_before', {}).get((c['name'], meth), 0)
             if J is None or evals == 0:
                 # not linearized by this call (relevance leaves components out that no requested total needs)
+                continue
+            if not base_current and a['method'] == 'fd' and a['form'] != 'central':
+                # one-sided differences take the outputs / residuals the vectors hold as their base point; after
+                # a set_val without an evaluation those belong to other inputs (user precondition).  Central
+                # differences and complex step have no base point and are judged at any state.
+                sim.probes.inc('one_sided_fd_partial_on_unevaluated_state_not_judged')
                 continue
             ins = {i['name']: np.array(comp._inputs._abs_get_val(path + '.' + i['name'], flat=True), dtype=float).real.copy()
                    for i in c['ins']}
@@ -2046,7 +2052,8 @@ class C12(HistoryCheck):
                     if prev is not None and prev.size == got.size and np.array_equal(prev.ravel(), got.ravel()) and \
                             float(np.abs(got - want).max()) > bound:
                         # not refreshed by this linearization: relevance only re-approximates the partials a
-                        # requested total needs, the others keep the value of an earlier linearization point
+                        # requested total needs (outside compute_totals: that the driver's design variables and
+                        # responses need), the others keep the value of an earlier linearization point
                         sim.probes.inc('approximated_partial_not_refreshed_not_judged')
                         continue
                     sim.probes.inc('approximated_partials_compared')
@@ -2059,9 +2066,8 @@ class C12(HistoryCheck):
         return True
 
     def after_op(self, sims, op, outs, viol, ctx, log):
-        if op['op'] == 'linearize' and outs[0][1] is None and outs[0][2] == 0 and not sims[0].knobs.get('approx_totals') \
-                and sims[0].resid_current:
-            if not self.check_partials_of_stubs(sims[0], viol):
+        if op['op'] == 'linearize' and outs[0][1] is None and outs[0][2] == 0 and not sims[0].knobs.get('approx_totals'):
+            if not self.check_partials_of_stubs(sims[0], viol, base_current=sims[0].resid_current):
                 return False
         if len(sims) < 2 or op['op'] != 'totals':
             return True
